@@ -193,6 +193,13 @@ int main(void)
                     memmove(out_at, out_at + 1, (out_n - 1) * sizeof out_at[0]); memmove(out_id, out_id + 1, (out_n - 1) * sizeof out_id[0]); out_n--;
                 } else printf("mqconfirm none\n");
             }
+            else if (!strcmp(sub, "confirmnewest")) {     /* the most recently handed-out entry is confirmed first (its acknowledgement came on another connection of the group) */
+                if (out_n > 0) {
+                    printf("mqconfirm at=%ld id=%llu\n", out_at[out_n - 1], out_id[out_n - 1]);
+                    MessageQueue_lock(mq); MessageQueue_markAsduAsConfirmed(mq, mq->buffer + out_at[out_n - 1], out_id[out_n - 1]); MessageQueue_unlock(mq);
+                    out_n--;
+                } else printf("mqconfirm none\n");
+            }
             /* `mq unconf` (MessageQueue_hasUnconfirmedIMessages) is gone: the library removed that function (fix e71fc44) */
             else if (!strcmp(sub, "avail")) { printf("mqavail %d\n", MessageQueue_isAsduAvailable(mq)); }
             else if (!strcmp(sub, "resetwait")) { MessageQueue_setWaitingForTransmissionWhenNotConfirmed(mq); out_n = 0; }
